@@ -294,7 +294,28 @@ def make_observer(disp, spec, world=None):
             remove_completed_machine_nodes=spec.get("rm", True),
             remove_completed_job_nodes=spec.get("rj", True),
         )
+    if t == "edge_updater":
+        return edge_updater_class()(disp, graph_builder(spec["builder"])(disp.instance), subscribe=sub)
     raise ValueError(f"unknown observer spec {spec}")
+
+
+_EDGE = []
+
+
+def edge_updater_class():
+    """A user's own GraphUpdater: it never removes nodes, it only drops the incoming edges of each scheduled
+    operation (its predecessors are decided).  reset() is the base class's."""
+    if not _EDGE:
+        from job_shop_lib.graphs.graph_updaters import GraphUpdater
+
+        class EdgeOrienter(GraphUpdater):
+            def update(self, scheduled_operation):
+                g = self.job_shop_graph.graph
+                n = scheduled_operation.operation.operation_id
+                g.remove_edges_from(list(g.in_edges(n)))
+
+        _EDGE.append(EdgeOrienter)
+    return _EDGE[0]
 
 
 def _arr(a):
